@@ -62,6 +62,11 @@ def histories(draw):
             if q is not None:
                 ops.append(["clear", q[1], q[2]])
             continue
+        if k == 6 and draw(st.integers(0, 5)) == 0:
+            for op in nested_uncached_scenario(draw, G):
+                if op[0] == "eval" or gen.apply_edit_to_picture(G, op):
+                    ops.append(op)
+            continue
         if k == 6 and draw(st.integers(0, 11)) == 0:
             for op in handled_failure_scenario(draw, G):
                 if op[0] == "eval" or gen.apply_edit_to_picture(G, op):
@@ -144,6 +149,36 @@ def aimed_scenario(draw, G):
         out.append(["set_cells_formula", p, name, gen.gen_cells_def(draw, G, sp, name, FEAT, params=cdef.params)])
     else:
         out.append(["set_cached", p, name, False])
+    return out
+
+
+def nested_uncached_scenario(draw, G):
+    """cached -> uncached -> uncached -> cached: the leaf is edited after the chain was evaluated"""
+    spaces = [s for s in G.all_spaces() if all(G.find_cells(s, n) is None and n not in s.children
+                                               for n in ("nu0", "nu1", "nu2", "nu3"))]
+    if not spaces:
+        return []
+    s = draw(st.sampled_from(spaces))
+    p = list(s.path)
+
+    def mk(name, expr, cached):
+        return {"name": name, "params": [["x", None]], "expr": expr, "cached": cached, "allow_none": None,
+                "form": draw(st.sampled_from(["lambda", "def"])), "tick": False}
+    call = lambda n: ["call", ["name", n], [["var", "x"]], "()"]
+    depth = draw(st.integers(2, 3))
+    out = [["new_cells", p, mk("nu0", ["bin", "+", ["var", "x"], ["lit", 1]], True)],
+           ["new_cells", p, mk("nu1", ["bin", "+", call("nu0"), ["lit", 10]], False)],
+           ["new_cells", p, mk("nu2", ["bin", "+", call("nu1"), ["lit", 100]], depth < 3 and draw(st.booleans()))],
+           ["new_cells", p, mk("nu3", ["bin", "+", call("nu2"), ["lit", 1000]], True)]]
+    for a in range(draw(st.integers(1, 2))):
+        out.append(["eval", p, "nu3", [a], None, "()"])
+    k = draw(st.integers(0, 2))
+    if k == 0:
+        out.append(["set_value", p, "nu0", [0], draw(st.integers(40, 60))])
+    elif k == 1:
+        out.append(["set_cells_formula", p, "nu0", mk("nu0", ["bin", "+", ["var", "x"], ["lit", draw(st.integers(2, 9))]], True)])
+    else:
+        out.append(["set_cells_formula", p, "nu1", mk("nu1", ["bin", "+", call("nu0"), ["lit", draw(st.integers(20, 90))]], False)])
     return out
 
 
